@@ -53,6 +53,16 @@ def pair_ok(a, b):
     return True
 
 
+def eq_ok(a, b):
+    """==/2 and \\==/2 are the equality of the standard order"""
+    ref = O.ref_cmp(a, b)
+    if ref is O.NA:
+        return True
+    if bool(eb._builtin_same(a, b)) != (ref == 0) or bool(eb._builtin_notsame(a, b)) != (ref != 0):
+        return False
+    return True
+
+
 def sort_ok(items):
     for x in items:
         for y in items:
@@ -113,6 +123,8 @@ def harness(idx, kind, tpls, irange):
     name = "h_%s_%d" % (kind, idx)
     if kind == "pair":
         body = "    return pair_ok(%s, %s)" % (exprs[0], exprs[1])
+    elif kind == "eq":
+        body = "    return eq_ok(%s, %s)" % (exprs[0], exprs[1])
     else:
         body = "    return sort_ok([%s])" % ", ".join(exprs)
     src = 'def %s(%s) -> bool:\n    """\n    pre: %s\n    post: _\n    """\n%s\n' % (name, sig, pre, body)
@@ -124,14 +136,19 @@ def harnesses(tier, seed):
     pairs = list(itertools.product(SHAPES, repeat=2))
     if tier == "quick":
         must = [p for p in pairs if "(I)" in p[0] + p[1] and p[0] in LEAVES and p[1] in LEAVES]
+        must += [("Term('f', Constant(I))", "Term('f', Constant(F))"), ("Term('f', Constant(F))", "Term('f', Constant(I))"),
+                 ("Term('f', Constant(F))", "Term('f', Constant(F))"), ("Term('b')", "Term(\"'b'\")")]
         rest = [p for p in pairs if p not in set(must)]
         rng.shuffle(rest)
         pairs = must + rest[:110]
     hs = [harness(i, "pair", p, 120) for i, p in enumerate(pairs)]
-    numeric = ["Constant(I)", "Constant(F)", "Term('a')", "Term('b')", "Term('f', Constant(I))", "Term(\"'b'\")"]
+    eqpairs = pairs if tier != "quick" else pairs[:len(must) + 40]
+    hs += [harness(5000 + i, "eq", p, 120) for i, p in enumerate(eqpairs)]
+    numeric = ["Constant(I)", "Constant(F)", "Term('a')", "Term('b')", "Term('f', Constant(I))", "Term(\"'b'\")", "Term('f', Constant(F))"]
     triples = list(itertools.product(numeric, repeat=3))
     rng.shuffle(triples)
-    for j, t in enumerate(triples[: (25 if tier == "quick" else 216)]):
+    triples = [("Term('f', Constant(I))", "Term('f', Constant(F))", "Term('a')")] + triples
+    for j, t in enumerate(triples[: (26 if tier == "quick" else 343)]):
         hs.append(harness(1000 + j, "sort", t, 120))
     return hs
 
@@ -169,8 +186,8 @@ def main(tier, seed):
                 ok = (kind == "exc") or (val is False)
             if ok:
                 st.ob("refuted", key=okey)
-                st.violation(classify(h.meta["shapes"]), "%s of %s with leaves %s: %s" % (
-                    h.meta["kind"], h.meta["shapes"], call[1:], "raised %r" % val if kind == "exc" else "differs from the standard order"),
+                st.violation(classify(h.meta["shapes"], h.meta["kind"]), "%s of %s with leaves %s: %s" % (
+                    h.meta["kind"], h.meta["shapes"], call[1:], "raised %r" % val if kind == "exc" else "differs from the standard order" if h.meta["kind"] != "eq" else "==/\\== disagree with the standard order"),
                     {"kind": "xh", "harness": h.source, "name": h.name, "args": list(call[1]), "kwargs": call[2]})
             else:
                 st.ob("inconclusive", key=okey, note="counterexample did not replay: %s" % detail[:100])
@@ -185,11 +202,14 @@ def main(tier, seed):
     return run.finish()
 
 
-def classify(shapes):
+def classify(shapes, kind="pair"):
     s = "|".join(shapes)
+    if kind == "eq" and sorted(x.replace("\"'", "'").replace("'\"", "'") for x in shapes) == ["Term('b')", "Term('b')"] and shapes[0] != shapes[1]:
+        # the same atom written with and without quotes: equal in the standard order (and unifiable), but == says no
+        return "==:quoted-atom-vs-atom"
     if "\"'" in s:
         return "quoted-atom-ordered-by-its-quote"
-    return "order:" + s
+    return ("order:" if kind != "eq" else "==:") + s
 
 
 def replay(obj):
